@@ -154,6 +154,43 @@ func judgeApp(a aApp, opt options) (v verdict) {
 	return v
 }
 
+// hostile shapes lie outside the exportable subset (colliding status codes, one name for a header and a query
+// parameter, references into another application, RPC-style endpoints): the oracle has nothing to demand of them, but
+// the model claims to know what the exporter does with them - correspondence only
+func hostile(g *gen, a aApp) aApp {
+	a = cloneApp(a)
+	for i := range a.Endpoints {
+		ep := &a.Endpoints[i]
+		switch g.r.Intn(4) {
+		case 0: // `ok` and `200` (and `error` and an unparsable name) in one endpoint
+			ep.Rets = append(ep.Rets, aRet{Name: "ok", T: &aType{Kind: "ref", Ref: a.Types[0].Name}}, aRet{Name: "200", T: &aType{Kind: "prim", Prim: "string"}},
+				aRet{Name: "error"}, aRet{Name: "1000", T: &aType{Kind: "prim", Prim: "bool"}})
+		case 1: // the same name as header and query parameter (and as body)
+			ep.Params = append(ep.Params, aParam{Name: "dup", In: "header", T: aType{Kind: "prim", Prim: "int"}},
+				aParam{Name: "dup", In: "query", T: aType{Kind: "prim", Prim: "string", Opt: true}})
+		case 2: // unnamed return of a type, of a sequence, of an unknown name
+			ep.Rets = append(ep.Rets, aRet{Name: "", T: &aType{Kind: "ref", Ref: a.Types[0].Name}}, aRet{Name: "nonsense"})
+		}
+	}
+	if len(a.Types) > 0 && a.Types[0].Kind == "tuple" {
+		a.Types[0].Fields = append(a.Types[0].Fields, aField{Name: "far", T: aType{Kind: "ref", Ref: "Other.Thing"}},
+			aField{Name: "fars", T: aType{Kind: "seq", Elem: &aType{Kind: "ref", Ref: "Other.Thing"}, Opt: true}})
+	}
+	a.Endpoints = append(a.Endpoints, aEndpoint{Plain: true, Path: "Login"})
+	return a
+}
+
+func judgeHostile(a aApp) (v verdict) {
+	v.App = a
+	m, perr := compile(render([]aApp{a}))
+	if perr != "" || m.Apps[a.Name] == nil {
+		v.ParseErr = "hostile text does not compile"
+		return v
+	}
+	v.Term, v.Skipped = caseTerm(m.Apps[a.Name], runExport3(m.Apps[a.Name], "json"))
+	return v
+}
+
 func firstLine(s string) string {
 	if i := strings.IndexByte(s, '\n'); i >= 0 {
 		s = s[:i]
@@ -338,7 +375,7 @@ func main() {
 	}
 	c := common.Setup("C12")
 	defer c.Finish()
-	c.Res.Rule = "one case = one generated REST-style application (1-7 types: tuples with 0-9 primitive / optional / sequence / set / reference fields incl. self and mutual references, enums, aliases; 1-5 endpoints with path / query / header / body parameters and 0-3 typed returns; `sysl` style as hand-written, `imported` style with name=\"..\" / ~required attributes and numeric return codes), rendered to Sysl text, compiled by the real parser and exported by the real exporters as openapi3 and swagger, each as json and yaml, then re-imported; distinct = distinct abstract application; non-trivial = at least one tuple type with a field and one endpoint"
+	c.Res.Rule = "one case = one generated REST-style application (1-7 types: tuples with 0-9 primitive / optional / sequence / set / reference fields incl. self and mutual references, enums, aliases; 1-5 endpoints with path / query / header / body parameters and 0-3 typed returns; `sysl` style as hand-written, `imported` style with name=\"..\" / ~required attributes and numeric return codes), rendered to Sysl text, compiled by the real parser and exported by the real exporters as openapi3 and swagger, each as json and yaml, then re-imported; every 6th application additionally in a hostile variant outside the exportable subset (colliding status codes, one name for a header and a query parameter, unnamed / unresolvable returns, references into another application, an RPC-style endpoint) that is compared with the model only; distinct = distinct abstract application; non-trivial = at least one tuple type with a field and one endpoint"
 
 	if c.Replay != "" {
 		var rp replayT
@@ -362,13 +399,14 @@ func main() {
 	}
 
 	type job struct {
-		a   aApp
-		opt options
-		src string
+		a       aApp
+		opt     options
+		src     string
+		hostile bool
 	}
 	var jobs []job
 	for i, a := range corpus() {
-		jobs = append(jobs, job{a, options{arrai: c.Thorough() || i < 2, coq: true}, "corpus"})
+		jobs = append(jobs, job{a, options{arrai: c.Thorough() || i < 2, coq: true}, "corpus", false})
 	}
 	n, nArrai := 220, 1
 	if c.Thorough() {
@@ -385,7 +423,10 @@ func main() {
 			style = "imported"
 		}
 		a := g.app(appNames[g.r.Intn(3)], style, i%4 == 0)
-		jobs = append(jobs, job{a, options{arrai: i < nArrai, coq: true}, style})
+		jobs = append(jobs, job{a, options{arrai: i < nArrai, coq: true}, style, false})
+		if i%6 == 0 {
+			jobs = append(jobs, job{hostile(g, a), options{coq: true}, "hostile", true})
+		}
 	}
 
 	results := make([]verdict, len(jobs))
@@ -398,7 +439,11 @@ func main() {
 		go func(i int) {
 			defer wg.Done()
 			defer func() { <-sem }()
-			results[i] = judgeApp(jobs[i].a, jobs[i].opt)
+			if jobs[i].hostile {
+				results[i] = judgeHostile(jobs[i].a)
+			} else {
+				results[i] = judgeApp(jobs[i].a, jobs[i].opt)
+			}
 		}(i)
 	}
 	wg.Wait()
@@ -436,6 +481,9 @@ func main() {
 				c.Hist("endpoint-with>=3-params")
 			}
 			c.HistN("returns", len(ep.Rets))
+		}
+		if v.ParseErr != "" && jobs[i].hostile {
+			c.Hist("hostile:does-not-compile")
 		}
 		if v.GaveUp {
 			c.Hist("oas3:validator-gave-up-on-reference-cycle")
